@@ -1,8 +1,10 @@
 mod codes;
+mod edns;
 mod hdr;
 mod msg;
 mod name;
 mod nametext;
+mod packet;
 mod proj;
 mod rdata;
 mod util;
@@ -19,6 +21,8 @@ fn main() {
         "name" => name::run(&a),
         "nametext" => nametext::run(&a),
         "rdata" => rdata::run(&a),
+        "packet" => packet::run(&a),
+        "edns" => edns::run(&a),
         t => {
             eprintln!("unknown topic {t}");
             std::process::exit(2);
